@@ -65,8 +65,8 @@ def _index(kind, n):
     if kind == "string":
         return pd.Index([f"r{i}" for i in range(n)], dtype=object)
     if kind == "datetime":
-        return pd.DatetimeIndex(pd.to_datetime(["2020-01-01", "2020-01-03", "2020-01-02"][:n]), name="when")
-    return pd.MultiIndex.from_arrays([["p", "q", "r"][:n], [3, 1, 2][:n]], names=["k1", "k2"])
+        return pd.DatetimeIndex(pd.to_datetime(["2020-01-01", "2020-01-03", "2020-01-02", "2020-01-04"][:n]), name="when")
+    return pd.MultiIndex.from_arrays([["p", "q", "r", "s"][:n], [3, 1, 2, 4][:n]], names=["k1", "k2"])
 
 
 def _equal(a, b):
